@@ -212,6 +212,37 @@ fn markers_clear(sc: &Sc, s: &Store, out: &mut Vec<(String, String)>) {
     }
 }
 
+/// all lists of length 1..=max_len, delivered in chunks (one per first symbol pair) so that the whole
+/// space never has to be held in memory
+pub fn shape_chunks(alpha: &[Sym], max_len: usize) -> Vec<Vec<Vec<Sym>>> {
+    let mut chunks: Vec<Vec<Vec<Sym>>> = vec![];
+    // lengths 1 and 2
+    chunks.push(shapes(alpha, max_len.min(2)));
+    if max_len <= 2 {
+        return chunks;
+    }
+    for a in alpha {
+        for b in alpha {
+            let mut out: Vec<Vec<Sym>> = vec![];
+            let mut frontier: Vec<Vec<Sym>> = vec![vec![*a, *b]];
+            for _ in 2..max_len {
+                let mut next = Vec::with_capacity(frontier.len() * alpha.len());
+                for p in &frontier {
+                    for s in alpha {
+                        let mut q = p.clone();
+                        q.push(*s);
+                        next.push(q);
+                    }
+                }
+                out.extend(next.iter().cloned());
+                frontier = next;
+            }
+            chunks.push(out);
+        }
+    }
+    chunks
+}
+
 pub struct ShapeOut {
     pub committed: bool,
     pub class: String,
@@ -417,19 +448,23 @@ pub fn run(tier: Tier) -> Outcome {
     let sc = scene("a", 0.05, [1000.0, 1000.0], [864.0, 864.0]);
     let alpha = alphabet(tier);
     let max_len = if tier == Tier::Quick { 5 } else { 6 };
-    let lists = shapes(&alpha, max_len);
-    let results: Vec<ShapeOut> = lists.par_iter().map(|l| run_shape(&sc, l)).collect();
     let mut classes: BTreeMap<String, u64> = BTreeMap::new();
     let mut found: Vec<Found> = vec![];
     let mut committed_lists = vec![];
-    for (l, r) in lists.iter().zip(results.into_iter()) {
-        *classes.entry(r.class.clone()).or_insert(0) += 1;
-        if r.committed && r.class.ends_with("took_control") && committed_lists.len() < 4 {
-            committed_lists.push(json!({"committed_bracket": l}));
+    let mut shape_cells = 0u64;
+    for lists in shape_chunks(&alpha, max_len) {
+        let results: Vec<ShapeOut> = lists.par_iter().map(|l| run_shape(&sc, l)).collect();
+        for (l, r) in lists.iter().zip(results.into_iter()) {
+            *classes.entry(r.class.clone()).or_insert(0) += 1;
+            if r.committed && r.class.ends_with("took_control") && committed_lists.len() < 4 {
+                committed_lists.push(json!({"committed_bracket": l}));
+            }
+            if found.len() < 5000 {
+                found.extend(r.found);
+            }
         }
-        found.extend(r.found);
+        shape_cells += lists.len() as u64;
     }
-    let shape_cells = lists.len() as u64;
     let grid_cells = grid(tier, &mut classes, &mut found) + worthless_collateral(&mut classes, &mut found);
     let mut o = Outcome { level: "model_checking".into(), ..Default::default() };
     let mut uniq: BTreeMap<(String, String), Found> = BTreeMap::new();
